@@ -15,7 +15,7 @@ CHECKS = {
             "history every query sharing an operand answers as on a fresh pool; derived objects (copy, transformed) are used as operands (alias "
             "writes) and queried after earlier queries (stale caches); a second pass with all arrays read-only pinpoints writes.",
             NOTE, "explicit-state exploration with byte-level state snapshots (closure of the reachable state set) plus differential history checks on the real implementation", "DESIGN.md section 5, C12"),
-    "C03": ("Every catalogue operation (about 130 entries: join/meet kinds, incidence, dist, angle, cross ratios, harmonic sets, constructions, "
+    "C03": ("Every catalogue operation (about 210 entries: join/meet kinds, incidence, dist, angle, cross ratios, harmonic sets, constructions, "
             "predicates, transformations on every object kind, quadric contains / intersect / tangent / polar / dual / components, conic x conic, polytope "
             "contains / intersect / area / centroid / distances) x every argument position (every vertex of a polytope) x every scale factor of "
             "{-3,-2,-1,-1/2,1/2,2,3} (+ i, -i, 1+i for the algebraic operations; thorough adds 1/4, 5, 10, 1/10) x up to 24 exact base configurations: "
